@@ -27,6 +27,10 @@ type srvOpt struct {
 	Silent      bool // may stop answering for good on a connection (keeps it open)
 	Short       bool // may send a frame shorter than a DNS header once per connection
 	AnswerAll   bool // no choice at all: answer in order (keeps the space small)
+	Mute        bool // never sends anything at all
+	CloseAfterAnswerOnly bool // closing only right after an answer (the connection goes stale, no query is dropped by the close itself)
+	ResetOnWrite bool // after the server closed, the client's next write fails (RST) instead of vanishing
+	BadLen      bool // may send a frame whose header announces more bytes than ever arrive
 }
 
 type tOpt struct {
@@ -69,6 +73,9 @@ type tConn struct {
 	dc         *TraditionalDnsConn
 	dialAt     time.Duration
 	maxInflight int
+	badLenSent bool
+	actLog     string // server actions taken on this connection, in order
+	openedFor  int // call on whose behalf the connection was dialed (-1 unknown)
 }
 
 type xmit struct {
@@ -92,6 +99,7 @@ type tsys struct {
 	closeAt  time.Duration
 	closeCalled bool
 	closeReturned bool
+	curCall  map[int]int // caller -> call in progress
 	reserving int
 	active   int // calls between a successful reserve / start of ExchangeContext and their return
 	tr       interface {
@@ -101,12 +109,26 @@ type tsys struct {
 	dc       *TraditionalDnsConn
 	finished bool
 	beforeClose func()
+	afterCloseErr   error
+	afterCloseDials int
+	afterCloseDone  bool
+	afterCloseStart, afterCloseRet time.Duration
+	AfterCloseProbe bool
 }
 
 func (s *tsys) key() unsafe.Pointer { return unsafe.Pointer(s) }
 
 func (s *tsys) newConn() *tConn {
-	cn := &tConn{idx: len(s.conns), dupLeft: s.opt.Srv.Dup, strayLeft: s.opt.Srv.Stray, dialAt: vs.Elapsed()}
+	cn := &tConn{idx: len(s.conns), dupLeft: s.opt.Srv.Dup, strayLeft: s.opt.Srv.Stray, dialAt: vs.Elapsed(), openedFor: -1}
+	for _, n := range vs.Ancestors() {
+		var ci int
+		if _, err := fmt.Sscanf(n, "caller%d", &ci); err == nil {
+			if k, ok := s.curCall[ci]; ok {
+				cn.openedFor = k
+			}
+			break
+		}
+	}
 	if s.opt.Srv.Short {
 		cn.shortLeft = 1
 	}
@@ -138,6 +160,8 @@ func (s *tsys) newConn() *tConn {
 		}
 		if !cn.closedBySrv {
 			cn.b.Deliver(wb)
+		} else if s.opt.Srv.ResetOnWrite {
+			return fk.ErrInjected
 		}
 		return nil
 	}
@@ -201,6 +225,10 @@ func (s *tsys) serve(cn *tConn) {
 				cn.pending = append(cn.pending, w)
 			}
 		}
+		if so.Mute {
+			cn.pending = nil
+			continue
+		}
 		if cn.silent || cn.closedBySrv || len(cn.pending) == 0 {
 			if cn.silent || cn.closedBySrv {
 				cn.pending = nil
@@ -230,13 +258,25 @@ func (s *tsys) serve(cn *tConn) {
 				acts = append(acts, act{"short", 0})
 			}
 			if s.closeLeft > 0 {
-				acts = append(acts, act{"close", 0}, act{"answer+close", 0})
+				if !so.CloseAfterAnswerOnly {
+					acts = append(acts, act{"close", 0}, act{"answer+close", 0})
+				} else if len(cn.pending) == 1 {
+					// the connection goes stale after its only outstanding query was answered
+					acts = append(acts, act{"answer+close", 0})
+				}
 			}
 			if so.Silent {
 				acts = append(acts, act{"silent", 0})
 			}
+			if so.BadLen && s.tcp && cn.shortLeft >= 0 && !cn.badLenSent {
+				acts = append(acts, act{"badlen", 0})
+			}
 		}
 		a := acts[vs.Choose(len(acts))]
+		cn.actLog += fmt.Sprintf("%c%d", a.kind[0], a.i)
+		if a.kind == "answer+close" {
+			cn.actLog += "c"
+		}
 		switch a.kind {
 		case "answer", "answer+close":
 			w := cn.pending[a.i]
@@ -273,6 +313,11 @@ func (s *tsys) serve(cn *tConn) {
 			} else {
 				cn.a.Deliver([]byte{1, 2, 3, 4, 5})
 			}
+		case "badlen":
+			cn.badLenSent = true
+			cn.a.Deliver([]byte{0xEA, 0x60, 1, 2, 3, 4, 5, 6, 7, 8, 9, 10, 11, 12, 13, 14})
+			cn.silent = true
+			cn.pending = nil
 		case "close":
 			s.srvClose(cn)
 		case "silent":
@@ -395,6 +440,20 @@ func (s *tsys) run() {
 	} else {
 		s.dc.Close()
 	}
+	if s.AfterCloseProbe {
+		d0 := s.dials
+		s.afterCloseStart = vs.Elapsed()
+		if s.tr != nil {
+			_, s.afterCloseErr = s.tr.ExchangeContext(bg, fk.Query(0x7777, "afterclose.example.", 1))
+		} else if re, closed := s.dc.ReserveNewQuery(); re == nil && closed {
+			s.afterCloseErr = ErrTDCClosed
+		} else if re != nil {
+			_, s.afterCloseErr = re.ExchangeReserved(bg, fk.Query(0x7777, "afterclose.example.", 1))
+		}
+		s.afterCloseDials = s.dials - d0
+		s.afterCloseRet = vs.Elapsed()
+		s.afterCloseDone = true
+	}
 	s.stop = true
 }
 
@@ -418,6 +477,10 @@ func (s *tsys) doCall(ci int, c *call) {
 	}
 	defer cancel()
 	c.started, c.startAt = true, vs.Elapsed()
+	if s.curCall == nil {
+		s.curCall = map[int]int{}
+	}
+	s.curCall[ci] = c.idx
 	var r *[]byte
 	var err error
 	if s.tr != nil {
@@ -482,7 +545,7 @@ func (s *tsys) describe() string {
 		out += fmt.Sprintf("\n  call%d id=%#04x conns=%v refused=%v err=%v ret@%v resp=%d bytes", c.idx, fk.ID(c.q), s.connsOf(c.idx), c.refused, c.err, c.retAt, len(c.resp))
 	}
 	for _, cn := range s.conns {
-		out += fmt.Sprintf("\n  conn%d got=%d answers=%d closedBySrv=%v silent=%v clientClosed=%v maxInflight=%d", cn.idx, len(cn.got), len(cn.answers), cn.closedBySrv, cn.silent, cn.a.Closed(), cn.maxInflight)
+		out += fmt.Sprintf("\n  conn%d openedFor=call%d got=%d answers=%d closedBySrv=%v silent=%v clientClosed=%v maxInflight=%d", cn.idx, cn.openedFor, len(cn.got), len(cn.answers), cn.closedBySrv, cn.silent, cn.a.Closed(), cn.maxInflight)
 	}
 	return out
 }
